@@ -85,7 +85,7 @@ func main() {
 		"pert:wrapped-garbage", "pert:schema-metadata", "pert:nested-type", "arm:pipe-unary", "arm:pipe-stream", "arm:http-unary", "arm:http-init",
 		"family:static", "family:dynamic", "default:string", "default:int", "default:float", "default:bool", "default:pointer-form", "default:nullable-form")
 
-	nDyn := r.N(70, 4000)
+	nDyn := r.N(70, 20000)
 	valuesPerType := r.N(2, 3)
 
 	pipeSrv := vgirpc.NewServer()
